@@ -206,7 +206,7 @@ theorem insKV_replace {α : Type} (k : List Nat) (x : α) (l : List (List Nat ×
   conv => lhs; rw [hl]
   rw [insKV_prefix k x _ _ hb]
   have h1 : ¬ rdLE k < rdLE l[j].1 := by omega
-  simp only [insKV, h1, hk, if_false, if_true]
+  simp only [insKV, hk, if_true]
   rw [List.set_eq_take_append_cons_drop]; simp [hj]
 
 theorem hasUKey_at {α : Type} (k : Nat) (l : List (List Nat × α)) (j : Nat) (hj : j < l.length)
@@ -492,5 +492,13 @@ theorem umap_refines {s v p m} {kw : Nat} {e : Shape} {es : List (List Nat × Va
     intro _
     exact ⟨m, rfl, F.same, rfl, rfl⟩
   | _ => unfold Refines; simp [Spec.applyNode, applyAt]
+
+/-- Non-vacuity of the hypotheses of `umap_refines`: an `UnsizedMap<u8, List<u8, u8>>` with two entries. -/
+example : ∃ (s : Shape) (v : Val) (p : List Step) (kw : Nat) (e : Shape) (es : List (List Nat × Val)) (m : Mem),
+    Focus s v p (.umap kw e) (.umap es) m ∧ Calm m ∧ es.length = 2 :=
+  ⟨.umap 1 (.list (.pod 1) 1), .umap [([3], .seq [[1]]), ([5], .seq [])], [], 1, .list (.pod 1) 1,
+    [([3], .seq [[1]]), ([5], .seq [])],
+    ⟨encode (.umap 1 (.list (.pod 1) 1)) (.umap [([3], .seq [[1]]), ([5], .seq [])]), 64, 0, []⟩,
+    ⟨⟨⟨true, false, by decide⟩, by decide, by decide⟩, rfl, rfl⟩, ⟨rfl, by decide, by decide⟩, rfl⟩
 
 end Unsized.Machine
